@@ -396,7 +396,7 @@ def validate(module, cfg, traces, wd=None, timeout=900, extra_env=None, shard=40
         for m in _VERDICT.finditer(out):
             v = parse_value("<<" + m.group(1).replace('\\"', '"') + ">>")
             tid = int(v[0]) - 1 + k
-            rec = dict(tid=tid, at=v[1], clause=v[2], detail=v[3] if len(v) > 3 else None)
+            rec = dict(tid=tid, at=v[1], clause=v[2], detail=v[3] if len(v) > 3 else None, extra=v[4:])
             if verdicts[tid] is not None and verdicts[tid]["clause"] != rec["clause"]:
                 # keep the earliest failure
                 if verdicts[tid]["clause"] == "ok" or (rec["clause"] != "ok" and rec["at"] < verdicts[tid]["at"]):
